@@ -6,7 +6,7 @@ import os
 import re
 
 from . import refparse as P
-from .common import WORK, Stats, Violation, hx, pmap, shim, finish, collect
+from .common import WORK, Stats, Violation, hx, pmap, shim, finish, collect, guard_task
 
 S16 = ['형', '흑', '혀', '하', '엉', '앙', '앗', '가', '.', '…', '♥', '♡', '?', '!', ' ', '\n']
 S10 = ['형', '하', '앙', '흐', '읏', '.', '♥', '?', '!', '\n']
@@ -70,6 +70,7 @@ def compare(text, line, ref=None):
 
 # ------------------------------------------------------------------ C04 (1): all strings over an alphabet
 
+@guard_task(0, 'parse')
 def bulk_task(prop, alphabet, prefix, rest, track):
     st = Stats()
     sh = shim()
@@ -184,6 +185,7 @@ def long_texts(tier):
     return out
 
 
+@guard_task(0, 'parse')
 def explicit_task(prop, texts, fork):
     """parse explicitly given texts (one request each)"""
     st = Stats()
@@ -455,6 +457,7 @@ def stray_conflict(text, fpos):
     return False
 
 
+@guard_task('C08', 'parse')
 def roundtrip_task(cmdlists, max_fill):
     st = Stats()
     sh = shim()
@@ -613,6 +616,8 @@ def _c08_task(t):
 def replay(case):
     sh = shim()
     k = case['kind']
+    if k == 'shim_request':
+        return 'see: raw shim request (re-run the check)', ''
     text = case['text']
     if '…[' in text and 'chars]…' in text:
         return 'see: long input shortened in the record', ''
